@@ -15,8 +15,8 @@ import (
 
 // C04 — check accepts exactly the well-formed journals.
 type c04 struct {
-	nRandom int
-	alphabet []gen.Dir
+	nRandom   int
+	alphabet  []gen.Dir
 	multisets [][]int
 }
 
